@@ -64,7 +64,7 @@ static const Known KNOWN[] = {
     // library-side pairs: none left (F-OOM-CRASH, library-side F-OOM-LEAK and F-OOM-CODE were repaired in /repo)
     {"F-OOM-LEAK", "cif_loop_set_category", 1},
     {"F-OOM-CODE", "cif_container_get_value(scalar)", 1}, {"F-OOM-CODE", "cif_container_get_value(looped)", 1},
-    {"F-OOM-CODE", "cif_pktitr_next_packet(new)", 1}, {"F-OOM-CODE", "cif_pktitr_next_packet(reuse)", 1},
+    {"F-OOM-CODE", "cif_pktitr_next_packet(new)", 1}, {"F-OOM-CODE", "cif_pktitr_next_packet(reuse)", 1}, {"F-OOM-CODE", "cif_pktitr_next_packet(into unrelated packet)", 1},
     {"F-OOM-SQLITE-TX", "cif_walk", 1}, {"F-OOM-SQLITE-TX", "cif_write(2.0)", 1}, {"F-OOM-SQLITE-TX", "cif_write(1.1)", 1}, {"F-OOM-SQLITE-TX", "cif_loop_get_packets", 1}, {"F-OOM-SQLITE-TX", "cif_pktitr_abort", 1},
     {"F-OOM-SQLITE-PARTIAL", "cif_container_get_all_loops", 1}, {"F-OOM-SQLITE-PARTIAL", "cif_loop_get_names", 1},
 };
